@@ -60,7 +60,23 @@ func NewSink(prop string) *Sink {
 	return &Sink{Property: prop, Rules: map[string]*RuleInfo{}, Analysed: map[string]int{}, seen: map[string]bool{}}
 }
 
+// floorSlack: the floors written next to the rule calls are the instance counts measured when the
+// rule was armed. A floor exists to catch a rule that has lost sight of its instances (an
+// enumerator matching nothing passes vacuously), not to pin the count: correct refactorings
+// merge instances (a helper extracted from three call sites, two arms folded into one), so the
+// effective floor leaves a fifth of the measured count as slack (small floors: one instance).
+func floorSlack(floor int) int {
+	switch {
+	case floor <= 1:
+		return floor
+	case floor <= 5:
+		return floor - 1
+	}
+	return floor * 4 / 5
+}
+
 func (s *Sink) Declare(id, doc string, floor int) {
+	floor = floorSlack(floor)
 	if r, ok := s.Rules[id]; ok {
 		if floor > r.Floor {
 			r.Floor = floor
